@@ -737,6 +737,28 @@ func checkC21(env *kernel.Env) {
 				break
 			}
 		}
+		// reads through every secondary index still find the rows
+		for _, x := range m.idx {
+			if env.Failed() || len(m.rows) == 0 {
+				break
+			}
+			ci := m.ci(x.col)
+			v := m.rows[T.Draw(len(m.rows))][ci]
+			if v == nil {
+				continue
+			}
+			want := 0
+			for _, r := range m.rows {
+				if r[ci] != nil && aLit(r[ci]) == aLit(v) {
+					want++
+				}
+			}
+			q := fmt.Sprintf("SELECT COUNT(*) FROM %s WHERE %s = %s", m.name, x.col, aLit(v))
+			r := s.Exec(q)
+			if r.Err != nil || len(r.Rows) != 1 || FormatVal(r.Rows[0][0]) != fmt.Sprint(want) {
+				env.Fail("data-preserved", "index-read-differs-after-alter:"+op.kind, "after %q: %s returns %v (err %v); the table holds %d such row(s)", op.sql, q, FormatRows(r.Rows, true), r.Err, want)
+			}
+		}
 		env.Nontrivial()
 	}
 }
